@@ -58,7 +58,9 @@ template <class T> static FG<T> gen_frustum (vp::Ctx& c, bool allow_fov = true, 
     double dec = s.below (4) == 0 ? s.uniform (0.01, 0.5) : s.uniform (0.3, max_ratio_decades);
     T f      = (T) ((double) n * std::pow (10.0, dec));
     if (!(f > n)) f = n * 2;
-    int how = (int) s.below (allow_fov ? 4 : 3);
+    int  how = (int) s.below (allow_fov ? 4 : 3);
+    bool want_set = false, wo = g.ortho;
+    T    wn = 0, wf = 0, wl = 0, wr = 0, wt = 0, wb = 0;
     if (how == 3 && !g.ortho)
     {
         // set(near, far, fovx, fovy, aspect) with exactly one of fovx / fovy non-zero
@@ -91,6 +93,8 @@ template <class T> static FG<T> gen_frustum (vp::Ctx& c, bool allow_fov = true, 
         T l = (T) (cx - w / 2), r = (T) (cx + w / 2), b = (T) (cy - h / 2), t = (T) (cy + h / 2);
         if (!(r > l)) r = l + 1;
         if (!(t > b)) t = b + 1;
+        want_set = true;
+        wn = n, wf = f, wl = l, wr = r, wt = t, wb = b;
         if (how == 0)
             g.F.set (n, f, l, r, t, b, g.ortho);
         else if (how == 1)
@@ -103,6 +107,9 @@ template <class T> static FG<T> gen_frustum (vp::Ctx& c, bool allow_fov = true, 
             if (!(cp == tmp) || (cp != tmp)) g.F.set (0, 0, 0, 0, 0, 0, false); // copy must compare equal (caught below as degenerate)
         }
     }
+    if (want_set) // set(n,f,l,r,t,b,ortho) / constructor / operator= store exactly what was given
+        VP_REQUIRE (c, same<T> (g.F.nearPlane (), wn) && same<T> (g.F.farPlane (), wf) && same<T> (g.F.left (), wl) && same<T> (g.F.right (), wr) && same<T> (g.F.top (), wt) && same<T> (g.F.bottom (), wb) && g.F.orthographic () == wo, "frustum/set-accessors",
+                    "set(" << wn << "," << wf << "," << wl << "," << wr << "," << wt << "," << wb << "," << wo << ") reads back as near=" << g.F.nearPlane () << " far=" << g.F.farPlane () << " left=" << g.F.left () << " right=" << g.F.right () << " top=" << g.F.top () << " bottom=" << g.F.bottom () << " ortho=" << g.F.orthographic ());
     VP_REQUIRE (c, !g.F.degenerate (), "frustum/degenerate", "generated frustum reports degenerate() (or copy / operator== / operator!= misbehaved)");
     g.ortho = g.F.orthographic ();
     g.n = (quad) g.F.nearPlane (), g.f = (quad) g.F.farPlane ();
@@ -523,11 +530,8 @@ template <class T> static void fov_case (vp::Ctx& c, const char* tn)
         }
         if (!g.ortho)
         {
-            quad cfx = (qabs (l) + qabs (r) + n) / (r - l) , cfy = (qabs (t) + qabs (b) + n) / (t - b);
             QG_CHK (c, "modifyNearAndFar/keeps-fovx", qabs ((quad) G.fovx () - (quad) F.fovx ()), eps * (1 + qabs (atan2q (r, n)) + qabs (atan2q (l, n)) + cl / (quad) n2), 4, tn << " fovx " << F.fovx () << " -> " << G.fovx ()); // measured worst 0.72 units
             QG_CHK (c, "modifyNearAndFar/keeps-fovy", qabs ((quad) G.fovy () - (quad) F.fovy ()), eps * (1 + qabs (atan2q (t, n)) + qabs (atan2q (b, n)) + cl / (quad) n2), 4, tn << " fovy " << F.fovy () << " -> " << G.fovy ()); // measured worst 0.61 units
-            (void) cfx;
-            (void) cfy;
         }
     }
     // ---- screenRadius / worldRadius
